@@ -70,66 +70,111 @@ pub struct LoopHooks {
     pub store_history: bool,
 }
 
-/// The body of main()'s `while let Some(mut msg) = rx_dedup.recv().await`
-/// loop (main.rs:494-596), with verbose/file/redis output left out.
+thread_local! {
+    static HOOKS: std::cell::RefCell<Option<LoopHooks>> = const { std::cell::RefCell::new(None) };
+    static HOOK_N: std::cell::Cell<usize> = const { std::cell::Cell::new(0) };
+}
+
+/// "extracted": the loop below is the text of main() in /repo's working tree;
+/// "fallback": the driver's copy of it (see tools in ./check, DESIGN.md 10.7)
+pub const MAIN_LOOP_SOURCE: &str = include_str!(concat!(env!("XOOLIVE_RS1090_VERIF_GEN"), "/extraction.txt"));
+
+/// what main() calls `options` inside its loop
+struct LoopOptions {
+    update_position: bool,
+    verbose: bool,
+    history_expire: Option<u64>,
+}
+
+/// main()'s decoding loop (main.rs, from `let update_reference = ...` to the end
+/// of `while let Some(mut msg) = rx_dedup.recv().await { ... }`), compiled from
+/// the repository's own text: `./check build` copies those lines verbatim into
+/// the generated file included below. This function only provides the bindings
+/// the lines refer to (as main() sets them up for a run without output file,
+/// redis, verbose output or aircraft database) and, by shadowing the module name
+/// `snapshot`, the observation points of the harness around the two real calls.
 pub async fn main_loop(
-    mut rx: tokio::sync::mpsc::Receiver<TimedMessage>,
+    mut rx_dedup: tokio::sync::mpsc::Receiver<TimedMessage>,
     app_dec: Arc<Mutex<Jet1090>>,
     references: BTreeMap<u64, Option<Position>>,
-    mut hooks: LoopHooks,
+    hooks: LoopHooks,
 ) {
+    let store_history = hooks.store_history;
+    HOOKS.with(|h| *h.borrow_mut() = Some(hooks));
+    HOOK_N.with(|n| n.set(0));
+    let r = main_loop_inner(&mut rx_dedup, app_dec, references, store_history).await;
+    HOOKS.with(|h| *h.borrow_mut() = None);
+    if let Err(e) = r {
+        panic!("main loop returned an error: {}", e);
+    }
+}
+
+#[allow(unused_mut, unused_variables, clippy::all)]
+async fn main_loop_inner(
+    rx_dedup: &mut tokio::sync::mpsc::Receiver<TimedMessage>,
+    app_dec: Arc<Mutex<Jet1090>>,
+    mut references: BTreeMap<u64, Option<Position>>,
+    store_history: bool,
+) -> Result<(), Box<dyn std::error::Error>> {
+    use crate::filters;
+    use redis::AsyncCommands;
+    use tokio::io::AsyncWriteExt;
+    /// the harness's observation points around the real calls
+    mod snapshot {
+        use super::super::exec;
+        use super::{HOOKS, HOOK_N};
+        use crate::{aircraftdb, Jet1090};
+        use rs1090::prelude::TimedMessage;
+        use std::collections::BTreeMap;
+        use tokio::sync::Mutex;
+        fn yields() -> bool {
+            HOOKS.with(|h| h.borrow().as_ref().map_or(false, |h| h.yields))
+        }
+        pub async fn update_snapshot(states: &Mutex<Jet1090>, msg: &mut TimedMessage, db: &BTreeMap<String, aircraftdb::Aircraft>) {
+            if yields() {
+                exec::yield_now().await;
+            }
+            crate::snapshot::update_snapshot(states, msg, db).await;
+            // index of this record (one update_snapshot per loop turn)
+            let n = HOOK_N.with(|n| {
+                let v = n.get();
+                n.set(v + 1);
+                v
+            });
+            HOOKS.with(|h| {
+                if let Some(h) = h.borrow_mut().as_mut() {
+                    (h.after_update)(n, msg)
+                }
+            });
+            if yields() {
+                exec::yield_now().await;
+            }
+        }
+        pub async fn store_history(states: &Mutex<Jet1090>, msg: TimedMessage, db: &BTreeMap<String, aircraftdb::Aircraft>) {
+            crate::snapshot::store_history(states, msg, db).await;
+            let n = HOOK_N.with(|n| n.get()).saturating_sub(1);
+            HOOKS.with(|h| {
+                if let Some(h) = h.borrow_mut().as_mut() {
+                    (h.after_history)(n)
+                }
+            });
+        }
+    }
+    let options = LoopOptions {
+        update_position: false,
+        verbose: false,
+        history_expire: if store_history { None } else { Some(0) },
+    };
     let aircraftdb: BTreeMap<String, crate::aircraftdb::Aircraft> = BTreeMap::new();
     let mut aircraft: BTreeMap<ICAO, AircraftState> = BTreeMap::new();
     let filters = crate::filters::Filters {
         df_filter: None,
         aircraft_filter: None,
     };
-    let mut first_msg = true;
-    let mut n = 0usize;
-    while let Some(mut msg) = rx.recv().await {
-        if first_msg {
-            app_dec.lock().await.should_clear = true;
-            first_msg = false;
-        }
-        if let Some(message) = &mut msg.message {
-            match &mut message.df {
-                ExtendedSquitterADSB(adsb) => match adsb.message {
-                    ME::BDS05(_) | ME::BDS06(_) => {
-                        // main.rs:517-523: the reference of the sensor that heard it first
-                        let serial = msg.metadata.first().map(|meta| meta.serial).unwrap();
-                        let mut reference = references[&serial];
-                        decode_position(&mut adsb.message, msg.timestamp, &adsb.icao24, &mut aircraft, &mut reference, &None);
-                    }
-                    _ => {}
-                },
-                ExtendedSquitterTisB { cf, .. } => match cf.me {
-                    ME::BDS05(_) | ME::BDS06(_) => {
-                        let serial = msg.metadata.first().map(|meta| meta.serial).unwrap();
-                        let mut reference = references[&serial];
-                        decode_position(&mut cf.me, msg.timestamp, &cf.aa, &mut aircraft, &mut reference, &None)
-                    }
-                    _ => {}
-                },
-                _ => {}
-            }
-        };
-        if hooks.yields {
-            exec::yield_now().await;
-        }
-        crate::snapshot::update_snapshot(&app_dec, &mut msg, &aircraftdb).await;
-        (hooks.after_update)(n, &msg);
-        if hooks.yields {
-            exec::yield_now().await;
-        }
-        let is_in = crate::filters::Filters::is_in(&filters, &msg);
-        let _json = serde_json::to_string(&msg);
-        if hooks.store_history && is_in {
-            crate::snapshot::store_history(&app_dec, msg, &aircraftdb).await;
-        }
-        (hooks.after_history)(n);
-        n += 1;
-        if app_dec.lock().await.should_quit {
-            break;
-        }
-    }
+    let mut file: Option<tokio::fs::File> = None;
+    let mut redis_connect: Option<redis::aio::MultiplexedConnection> = None;
+    let redis_topic = "jet1090".to_string();
+    include!(concat!(env!("XOOLIVE_RS1090_VERIF_GEN"), "/main_loop_body.rs"));
+
+    Ok(())
 }
